@@ -425,7 +425,6 @@ func (s *streamGRPC) RecvMsg(m interface{}) error {
 	}
 	if stats := s.opts.statsHandler; stats != nil {
 		// TODO: raw payload stats.
-		b := b[headerLen:] // shadow
 		stats.HandleRPC(s.ctx, inPayload(false, m, b, time.Now()))
 	}
 	return nil
